@@ -127,7 +127,7 @@ func genC18(r *h.Rng, tier string, idx int) *h.Plan {
 			p.Ops = append(p.Ops, h.Op{K: "clear", Loc: loc})
 		case 11:
 			// error cases: missing parameter, ill-typed parameter, unknown URI, failing operation
-			p.Ops = append(p.Ops, h.Op{K: "bad", Loc: loc, S: r.Pick([]string{"missing-location", "missing-fact", "fact-not-json", "fact-is-string", "unknown-uri", "get-unknown-id", "rule-without-action", "pattern-missing", "id-is-map"})})
+			p.Ops = append(p.Ops, h.Op{K: "bad", Loc: loc, S: r.Pick([]string{"missing-location", "missing-fact", "fact-not-json", "fact-is-string", "unknown-uri", "get-unknown-id", "rule-without-action", "pattern-missing", "id-is-map", "take-pattern-missing", "replace-fact-missing", "replace-pattern-missing"})})
 		case 12:
 			// ill-typed parameter, systematically: (operation, parameter, wrong value)
 			cells := c18IllCells()
@@ -186,6 +186,19 @@ func c18Request(op h.Op) (uri string, params map[string]interface{}) {
 		params["query"] = op.Map()
 	case "clear":
 		uri = "/loc/admin/clear"
+	case "take":
+		uri = "/loc/facts/take"
+		params["pattern"] = op.Map()
+	case "replace":
+		// pattern of what is taken in Sub[0], the fact that replaces it in J
+		uri = "/loc/facts/replace"
+		params["fact"] = op.Map()
+		if len(op.Sub) > 0 {
+			params["pattern"] = op.Sub[0].Map()
+		}
+		if op.Id != "" {
+			params["id"] = op.Id
+		}
 	case "bad":
 		switch op.S {
 		case "ill":
@@ -229,6 +242,14 @@ func c18Request(op h.Op) (uri string, params map[string]interface{}) {
 		case "rule-without-action":
 			uri = "/loc/rules/add"
 			params["rule"] = map[string]interface{}{"when": map[string]interface{}{"pattern": map[string]interface{}{"a": "b"}}}
+		case "take-pattern-missing":
+			uri = "/loc/facts/take"
+		case "replace-fact-missing":
+			uri = "/loc/facts/replace"
+			params["pattern"] = map[string]interface{}{"k": "?v"}
+		case "replace-pattern-missing":
+			uri = "/loc/facts/replace"
+			params["fact"] = map[string]interface{}{"k": "v"}
 		case "pattern-missing":
 			uri = "/loc/facts/search"
 		case "id-is-map":
@@ -253,6 +274,10 @@ func c18Payload(op h.Op, body string) string {
 		return "!notjson:" + h.Trunc(body, 120)
 	}
 	switch op.K {
+	case "take":
+		return c18Payload(h.Op{K: "search"}, body)
+	case "replace":
+		return c18Payload(h.Op{K: "addfact", Id: op.Id}, body)
 	case "addfact":
 		if op.Id == "" {
 			if s, _ := x["id"].(string); s != "" {
